@@ -169,6 +169,62 @@ pub fn run_total(args: &[String]) {
                 };
                 tb.sort();
                 tb.dedup();
+                // token-level edits: delete every run of 1, 2 and 3 consecutive tokens, duplicate every token, swap
+                // every pair of adjacent tokens (garbled-but-plausible programs: `Result[int, str]` -> `Result[int]`)
+                let spans: Vec<(usize, usize)> = match incan::frontend::lexer::lex(&src) {
+                    Ok(toks) => toks
+                        .iter()
+                        .map(|t| (t.span.start, t.span.end))
+                        .filter(|&(a, b)| a < b && b <= src.len() && src.is_char_boundary(a) && src.is_char_boundary(b))
+                        .collect(),
+                    Err(_) => vec![],
+                };
+                for (ti, &(a, _)) in spans.iter().enumerate() {
+                    if ti % st != 0 {
+                        continue;
+                    }
+                    for run in 1..=3usize {
+                        if ti + run > spans.len() {
+                            break;
+                        }
+                        let b = spans[ti + run - 1].1;
+                        if b < a {
+                            continue;
+                        }
+                        k += 1;
+                        if shard.mine(k) {
+                            let mut d = String::with_capacity(src.len());
+                            d.push_str(&src[..a]);
+                            d.push_str(&src[b..]);
+                            run_one(&d, "delete-tokens", &uri, &mut t, &mut out);
+                        }
+                    }
+                    let (ta, tb_) = spans[ti];
+                    k += 1;
+                    if shard.mine(k) {
+                        let mut d = String::with_capacity(src.len() + (tb_ - ta) + 1);
+                        d.push_str(&src[..tb_]);
+                        d.push(' ');
+                        d.push_str(&src[ta..tb_]);
+                        d.push_str(&src[tb_..]);
+                        run_one(&d, "duplicate-token", &uri, &mut t, &mut out);
+                    }
+                    if ti + 1 < spans.len() {
+                        let (na, nb) = spans[ti + 1];
+                        if na >= tb_ {
+                            k += 1;
+                            if shard.mine(k) {
+                                let mut d = String::with_capacity(src.len());
+                                d.push_str(&src[..ta]);
+                                d.push_str(&src[na..nb]);
+                                d.push_str(&src[tb_..na]);
+                                d.push_str(&src[ta..tb_]);
+                                d.push_str(&src[nb..]);
+                                run_one(&d, "swap-tokens", &uri, &mut t, &mut out);
+                            }
+                        }
+                    }
+                }
                 for (ti, &o) in tb.iter().enumerate() {
                     if ti % st != 0 {
                         continue;
